@@ -40,6 +40,8 @@ pub enum F0 {
 
 pub const ALL0: [F0; 20] = [F0::Accept, F0::SimpleTransfer, F0::Send, F0::CombineAnd, F0::CombineOr, F0::GetParameterSize, F0::GetParameterSection, F0::GetPolicySection, F0::LogEvent, F0::LoadState, F0::WriteState, F0::ResizeState, F0::StateSize, F0::GetReceiveInvoker, F0::GetReceiveSelfAddress, F0::GetReceiveSelfBalance, F0::GetReceiveSender, F0::GetReceiveOwner, F0::GetSlotTime, F0::GetInitOrigin];
 
+pub fn sig0_pub(f: F0) -> (&'static str, &'static [bool], Option<bool>) { sig0(f) }
+
 fn sig0(f: F0) -> (&'static str, &'static [bool], Option<bool>) {
     match f {
         F0::Accept => ("accept", &[], Some(false)),
